@@ -3,7 +3,7 @@
    controls, header rules or credentials, in the order read from the source (Tables.v);
    handle_request = proxyConn.handle up to roundTrip.  A request is what net/http.ReadRequest hands over.
    after_removal h = h without the documented hop-by-hop fields and the names its Connection field nominates. *)
-From G01 Require Import ReqE2E ViaProofs ReqProofs E2EProofs Ob18 Ob01.
+From G01 Require Import ReqE2E ViaProofs ReqProofs E2EProofs Ob18 Ob01 BodyStream.
 
 (* Every end-to-end field reaches the next hop with the same values in the same per-name order. *)
 Theorem T01_end_to_end_preserved : forall tag r r' k,
@@ -169,6 +169,34 @@ Theorem T01_e2e_model_refusal : forall x st,
   own_sub (xi_tag x) (raw_values via_key (after_removal (hin_of x))) = true /\ st = 400.
 Proof. exact f01_e2e_refusal. Qed.
 Print Assumptions T01_e2e_model_refusal.
+
+(* THE BYTE STREAM OF A CONNECTION (BodyStream.v: read_lines / read_body / read_conn = how the proxy's reader cuts the
+   stream into requests; tied to the real reader by the kcases stream).  A body as the client writes it (wbody): nothing,
+   Content-Length bytes, or chunks -- ANY chunking, ANY way of writing each chunk size that denotes the data length
+   (case, leading zeros, extensions).  The reader hands over exactly the body bytes and stops exactly where the next
+   request begins, whatever follows (rest). *)
+Theorem T01_body_bytes_exact : forall fr w rest,
+  wbody_ok fr w -> read_body fr (render_body w ++ rest) = Some (body_bytes w, rest).
+Proof. exact read_body_app. Qed.
+Print Assumptions T01_body_bytes_exact.
+
+(* ... hence EVERY sequence of requests on one connection -- any number, any mix of framings, however the framing is
+   decided from the head (fr_of) -- is cut into exactly those requests: the k-th request the reader produces has the
+   head lines and the body bytes of the k-th request the client wrote, for every k. *)
+Theorem T01_connection_stream_exact : forall fr_of ms fuel,
+  Forall (msg_ok fr_of) ms -> (length ms <= fuel)%nat ->
+  read_conn fr_of fuel (concat (map render_msg ms)) = Some (map (fun m => (fst m, body_bytes (snd m))) ms).
+Proof. intros fr_of ms fuel H. exact (read_conn_app fr_of ms H fuel). Qed.
+Print Assumptions T01_connection_stream_exact.
+
+Example T01_stream_example :
+  let m1 := ([b "POST /a HTTP/1.1"; b "Host: o"; b "Transfer-Encoding: chunked"],
+             WChunked [(b "3", b "abc"); (b "0A;ext=1", b "0123456789")] (b "0")) in
+  let m2 := ([b "PUT /b HTTP/1.1"; b "Host: o"; b "Content-Length: 4"], WCl (b "wxyz")) in
+  msg_ok framing_of m1 /\ msg_ok framing_of m2 /\
+  read_conn framing_of 5 (render_msg m1 ++ render_msg m2) =
+    Some [(fst m1, b "abc0123456789"); (fst m2, b "wxyz")].
+Proof. exact stream_example. Qed.
 
 (* The stack is the written-out composition, in the source's order. *)
 Theorem T01_stack_order : forall tag r, modify_request tag r = pipeline tag r.
